@@ -394,4 +394,21 @@ theorem liveRun_spec {ps : Nat} {crc : Crc} (h8 : 8 ≤ ps) (hmax : ps ≤ 65542
     · rw [h]
     · exact i2 o h
 
+/-- What the tailing reader has returned after the first observations does not depend on what is
+    appended later. -/
+theorem liveRun_take (ps : Nat) (crc : Crc) :
+    ∀ (cs1 cs2 : List Bytes) (st : LState) (pending : Bytes),
+      (liveRun ps crc st pending (cs1 ++ cs2)).take cs1.length = liveRun ps crc st pending cs1 := by
+  intro cs1
+  induction cs1 with
+  | nil => intro cs2 st pending; simp [liveRun]
+  | cons c cs1 ih =>
+    intro cs2 st pending
+    simp only [List.cons_append, liveRun, List.length_cons]
+    generalize lrDrain ps crc (drainFuel st (pending ++ c)) st (pending ++ c) = d
+    obtain ⟨rs, s, st', avail'⟩ := d
+    cases s with
+    | eof => simp only [List.take_succ_cons]; rw [ih]
+    | err e => simp
+
 end Prom.Wal
